@@ -75,12 +75,6 @@ Example predicate_position_global_refuted :
   run impl_flags (chp p_c_l1 n_v (num [49])) = ONodes [11].
 Proof. split; vm_compute; reflexivity. Qed.
 
-(* /a:c/ancestor::* : the root is not an element *)
-Example root_matches_star_refuted :
-  run spec_flags (EStep (ch ERoot n_c) false AxAncestor (TStar None) PNil) = ONodes [] /\
-  run impl_flags (EStep (ch ERoot n_c) false AxAncestor (TStar None) PNil) = ONodes [0].
-Proof. split; vm_compute; reflexivity. Qed.
-
 (* /a:c/a:s/node() : the text node of the leaf; as coded a leaf has no children.
    count(//node()) : 14 elements and 9 text nodes; as coded the elements only *)
 Example text_nodes_refuted :
@@ -119,6 +113,12 @@ Example kernels_through_eval_regression :
   agree (EFun1 FString (EArith ADiv (num [49]) (num [52]))) (OStr [48; 46; 50; 53]) /\
   agree (EFun1 FNumber (ELit [49; 101; 51])) (ONum XNaN) /\
   agree (EFun1 FNumber (ELit [32; 53; 32])) (ONum (x_of_Z 5)).
+Proof. repeat split; vm_compute; reflexivity. Qed.
+
+(* c545a4e  /a:c/ancestor::* : the root is not an element (it matched '*'); ancestor::node() still selects it *)
+Example root_matches_star_regression :
+  agree (EStep (ch ERoot n_c) false AxAncestor (TStar None) PNil) (ONodes []) /\
+  agree (EStep (ch ERoot n_c) false AxAncestor TNode PNil) (ONodes [0]).
 Proof. repeat split; vm_compute; reflexivity. Qed.
 
 (* 434e77e  /a:c/a:l1[a:k=5] : node-set = number compares numbers: the key '5.0' is 5 (the lookup compared strings) *)
